@@ -737,10 +737,12 @@ class PureScheduler:                                    # pylint: disable=r0902
                     task,
                     "TIDYING {} {} {}"
                     .format(job.repr_id(), job.repr_short(), job.repr_main()))
-        # don't bother to set a timeout,
-        # this is expected to be immediate
-        # since all tasks are canceled
-        await asyncio.gather(*exception_tasks, return_exceptions=True)
+        # these tasks are over: retrieving their exception is enough to clear
+        # it, and unlike gather() (up to python-3.11) it does not go back to
+        # the event loop, so that a job that raises costs the scheduler
+        # exactly as many iterations as a job that returns
+        for task in exception_tasks:
+            task.exception()
 
     @staticmethod
     def _show_task_stack(task, msg='STACK', margin=4, limit=None):
